@@ -174,8 +174,8 @@ func (p *Program) lookupFunc(pkgPath, name string) *ssa.Function {
 	if sp == nil {
 		return nil
 	}
-	if i := strings.Index(name, "$"); i >= 0 {
-		// anonymous function: Parent$N
+	if i := strings.LastIndex(name, "$"); i >= 0 {
+		// anonymous function: Parent$N (Parent may itself be a closure: F$1$2)
 		parent := p.lookupFunc(pkgPath, name[:i])
 		if parent == nil {
 			return nil
